@@ -144,10 +144,18 @@ def prune_rules(model, rep):
     gen = vm.methods.get('generate')
     if gen is None:
         raise AnalysisError('anchor vanished: VacancyMediated.generate')
-    ok = pattern.has(gen, 'self.outerkin = [_N_s for _N_s in range(self.kinetic.Nstars) '
-                          'if self.thermo.stateindex(self.kinetic.states[self.kinetic.stars[_N_s][0]]) is None]')
-    alt = pattern.has(gen, 'self.outerkin = [_N_s for _N_s in range(self.kinetic.Nstars) '
-                           'if self.kinetic.states[self.kinetic.stars[_N_s][0]] not in self.thermo]')
+    from ._common import resolve_local
+    ok = alt = False
+    oks = [a for a in walk_local(gen) if isinstance(a, ast.Assign) and unparse(a.targets[0]) == 'self.outerkin']
+    if len(oks) != 1:
+        raise AnalysisError('VacancyMediated.generate: assignment of self.outerkin not found')
+    val = resolve_local(gen, oks[0].value)     # shortcuts (thermo = self.thermo, kinrep = [...]) written out
+    ok = pattern.has(val, '[_N_s for _N_s in range(self.kinetic.Nstars) '
+                          'if self.thermo.stateindex(self.kinetic.states[self.kinetic.stars[_N_s][0]]) is None]', 'expr') or \
+        pattern.has(val, '[_N_s for _N_s in range(self.kinetic.Nstars) '
+                         'if self.thermo.stateindex([self.kinetic.states[_N_t[0]] for _N_t in self.kinetic.stars][_N_s]) is None]', 'expr')
+    alt = pattern.has(val, '[_N_s for _N_s in range(self.kinetic.Nstars) '
+                           'if self.kinetic.states[self.kinetic.stars[_N_s][0]] not in self.thermo]', 'expr')
     rep.ob('outer-shell-by-membership', oc, gen, 'outerkin = [s for s in range(kinetic.Nstars) if representative state not in thermo]',
            ok or alt, '' if ok or alt else 'the outer shell is not decided by membership of each kinetic star in the thermodynamic set '
                                            '(e.g. by position in the distance-sorted list): jumps touching the thermodynamic range are '
